@@ -64,23 +64,30 @@ def main():
                 open(os.path.join(work, 'key.txt'), 'wb').write(bytes(sc['keyfile'])); pwargs = ['-k', 'key.txt']
             what = sc['what']          # roundtrip | wrongpw | flip | trunc | extend | fault_enc | fault_dec
             fault = sc.get('fault')
+            if sc.get('preexist') and what == 'fault_enc': open(enc, 'wb').write(b'an older file under the output name\n' * 40)
             if 'pipe_enc' in sc: rc_e, so, se_e, trip_e = run_piped([CRYPT, '-e'] + pwargs + ['-o', enc, '-'], content, sc['pipe_enc'])
             else: rc_e, so, se_e, trip_e = run([CRYPT, '-e'] + pwargs + ['-o', enc, plain], fault if what == 'fault_enc' else None)
-            ev.update({'pipe_enc': sc.get('pipe_enc', []), 'pipe_dec': sc.get('pipe_dec', [])})
+            ev.update({'pipe_enc': sc.get('pipe_enc', []), 'pipe_dec': sc.get('pipe_dec', []), 'preexist': 1 if sc.get('preexist') else 0})
+            OLD = b'an older file under the output name\n' * 40
+            def own_output(path):
+                # an older file that the tool never opened (it failed earlier) is not output of this run
+                if not os.path.exists(path): return 0
+                return 0 if (sc.get('preexist') and open(path, 'rb').read() == OLD) else 1
             ev.update({'what': what, 'size': len(content), 'fault': fault or {'op': 'none', 'k': 0, 'kind': 'none'},
-                       'exit_enc': rc_e, 'stderr_enc': 1 if se_e else 0, 'enc_exists': 1 if os.path.exists(enc) else 0,
+                       'exit_enc': rc_e, 'stderr_enc': 1 if se_e else 0, 'enc_exists': own_output(enc),
                        'enc_size': os.path.getsize(enc) if os.path.exists(enc) else -1, 'tripped': trip_e})
-            if what != 'fault_enc' or (rc_e == 0 and os.path.exists(enc)):
-                if os.path.exists(enc):
+            if what != 'fault_enc' or (rc_e == 0 and own_output(enc)):
+                if own_output(enc):
                     data = bytearray(open(enc, 'rb').read())
                     if what == 'flip': data[sc['pos']] ^= sc['mask']
                     elif what == 'trunc': data = data[:sc['len']]
                     elif what == 'extend': data += bytes(sc['extra'])
                     open(enc, 'wb').write(bytes(data))
                 dpw = ['-p', sc['pw2']] if what == 'wrongpw' else pwargs
+                if sc.get('preexist'): open(dec, 'wb').write(b'an older file under the output name\n' * 40)
                 if 'pipe_dec' in sc: rc_d, so, se_d, trip_d = run_piped([CRYPT, '-d'] + dpw + ['-o', dec, '-'], open(enc, 'rb').read(), sc['pipe_dec'])
                 else: rc_d, so, se_d, trip_d = run([CRYPT, '-d'] + dpw + ['-o', dec, enc], fault if what == 'fault_dec' else None)
-                ev.update({'exit_dec': rc_d, 'stderr_dec': 1 if se_d else 0, 'dec_exists': 1 if os.path.exists(dec) else 0,
+                ev.update({'exit_dec': rc_d, 'stderr_dec': 1 if se_d else 0, 'dec_exists': own_output(dec),
                            'same': 1 if os.path.exists(dec) and open(dec, 'rb').read() == content else 0})
                 if what == 'fault_dec': ev['tripped'] = trip_d
             else:
@@ -165,11 +172,20 @@ def main():
                     open(nm, 'wb').write(bytes(d))
                 if f.get('remove'): os.remove(nm)
             extra = ''.join(l + '\n' for l in sc.get('bad_lines', []))
-            open(os.path.join(work, 'sums.txt'), 'w', encoding='latin1').write(sums + extra)
-            rc2, so2, se2, _ = run([SUM, '-' + sc['alg'] + 'c', 'sums.txt'])
+            text = sums + extra
+            # list shapes other tools and editors produce: CRLF line ends, upper-case digests, no newline after the last line
+            if sc.get('eol') == 'crlf': text = text.replace('\n', '\r\n')
+            if sc.get('upper'): text = ''.join((l[:64].upper() + l[64:]) if len(l) > 66 else l for l in text.splitlines(True))
+            if sc.get('no_final_newline'): text = text.rstrip('\r\n')
+            open(os.path.join(work, 'sums.txt'), 'w', encoding='latin1', newline='').write(text)
+            if sc.get('stdin'):
+                rc2, so2, se2, _ = run([SUM, '-' + sc['alg'] + 'c'], stdin=open(os.path.join(work, 'sums.txt'), 'rb'))
+            else:
+                rc2, so2, se2, _ = run([SUM, '-' + sc['alg'] + 'c', 'sums.txt'])
             rep = {}
             for l in so2.decode('latin1').split('\n'):
                 if ': ' in l: rep[l.split(': ')[0]] = l.split(': ', 1)[1]
+            ev.update({'shape': '%s%s%s%s' % (sc.get('eol', 'lf'), '+upper' if sc.get('upper') else '', '+nofinal' if sc.get('no_final_newline') else '', '+stdin' if sc.get('stdin') else '')})
             ev.update({'alg': sc['alg'], 'gen_exit': rc, 'exit': rc2, 'nbad': len(sc.get('bad_lines', [])),
                        'files': [{'changed': 1 if (f.get('modify') or f.get('remove')) else 0, 'missing': 1 if f.get('remove') else 0,
                                   'reported': rep.get('f%d.bin' % i, 'none')} for i, f in enumerate(files)]})
